@@ -89,6 +89,15 @@ def _init_worker(modname, tier):
     global _MOD, _TIER
     _MOD = __import__(modname, fromlist=["x"])
     _TIER = tier
+    # Pin each worker to one CPU: the thread explorer hands a baton between
+    # threads of one process, which is far cheaper on a single core.
+    try:
+        ident = multiprocessing.current_process()._identity
+        cpus = sorted(os.sched_getaffinity(0))
+        if ident and cpus:
+            os.sched_setaffinity(0, {cpus[(ident[0] - 1) % len(cpus)]})
+    except Exception:
+        pass
 
 
 def _run_unit(arg):
@@ -140,8 +149,12 @@ def _run_unit(arg):
                         acc["violations"].append(
                             {"sig": sig, "case": case, "detail": detail}
                         )
-        # Determinism proof: replay first, last and violating cases.
+        # Determinism proof: replay first, last and violating cases (modules
+        # whose single case is a whole schedule exploration verify replay
+        # determinism inside the engine instead and set DETERMINISM_REPLAY=False).
         todo = [x for x in (first, last) if x is not None] + replay
+        if not getattr(mod, "DETERMINISM_REPLAY", True):
+            todo = []
         for case, d in todo:
             res2 = mod.run_case(case)
             if digest(res2.outcome) != d:
